@@ -1,26 +1,26 @@
 SPECIFICATION Spec
 CONSTANTS MaxN = 2
-  DataProfiles <- DataQuick
-  Forms <- FormsQuick
+  DataProfiles = {}
+  Forms = {}
   StopKinds = {"close"}
-  Scenarios <- ScenQuick
-  Reruns = {FALSE, TRUE}
-  RerunScenarios <- ScenRerunQuick
-  RerunData <- DataRerunQuick
-  RerunForms <- FormsRerunQuick
+  Scenarios = {}
+  Reruns = {}
+  RerunScenarios = {}
+  RerunData = {}
+  RerunForms = {}
   Holds = {}
   HoldScenarios = {}
   HoldData = {}
   HoldForms = {}
   HoldRc = {}
-  Muts = {}
+  Muts = {TRUE}
   MutScenarios <- ScenMutQuick
   MutData <- DataMutQuick
   MutForms <- FormsMutQuick
   MutRc = {FALSE}
   MaxRep = 2
   KeepHistory = FALSE
-  Design = "final_name"
+  Design = "memo"
 VIEW view
 INVARIANT TypeOK
 INVARIANT NoTruncated
@@ -28,9 +28,4 @@ INVARIANT StoredIsLastComplete
 INVARIANT FirstRunTransparent
 INVARIANT LoadIsStored
 INVARIANT LoadNoPull
-INVARIANT RestoreFirstRun
-INVARIANT FirstRunWhenNothingLoadable
-PROPERTY CompleteIsComplete
-PROPERTY DropRestores
-PROPERTY InterruptKeepsLoaded
 CHECK_DEADLOCK FALSE
